@@ -18,6 +18,7 @@ func init() {
 			m.RunTruthUsers(s, "R-TRUTH")
 			m.RunEvalErr(s, "R-EVALERR") // a failing condition / body / sub-expression fails the render instead of being treated as a value
 			m.RunBranch(s, "R-BRANCH")
+			m.RunBlockEnd(s, "R-BLOCKEND")
 			m.RunPrefixKW(s, "R-PREFIXKW")
 			m.RunEmit(s, "R-EMIT")
 			s.RequireMin("R-TRUTH", 12, "7 table rows + 5 users")
